@@ -47,15 +47,17 @@ type c49Conf struct {
 	Status  int         `json:"status,omitempty"` // redirect
 	Product string      `json:"product"`
 	Direct  bool        `json:"direct,omitempty"` // loader rejected the command: action.Action.Do is called directly
+	Adv     bool        `json:"adv,omitempty"`    // adversarial family (c49adv.go): request generated from the configured parameters
 }
 
 type c49Req struct {
 	Method     string      `json:"method"`
 	Abs        bool        `json:"absolute_form"`
 	Host       string      `json:"host"`
-	Path       string      `json:"path"`  // raw (encoded) path
-	Query      string      `json:"query"` // raw query
-	HasQ       bool        `json:"has_q"` // "?" present
+	Path       string      `json:"path"`            // raw (encoded) path
+	Query      string      `json:"query"`           // raw query
+	HasQ       bool        `json:"has_q"`           // "?" present
+	Shape      string      `json:"shape,omitempty"` // adversarial family: how host/path/query were derived from the parameters
 	Headers    [][2]string `json:"headers,omitempty"`
 	RspHeaders [][2]string `json:"rsp_headers,omitempty"`
 	ClientIP   string      `json:"client_ip,omitempty"`
@@ -182,8 +184,19 @@ func c49In(keys []string, k string) bool {
 // c49Rewrite applies one documented rewrite action. judged=false marks a corner
 // the documentation does not decide.
 func c49Rewrite(a c49Action, s c49State) (out c49State, judged bool) {
+	out, silent := c49RewriteWhy(a, s)
+	return out, silent == ""
+}
+
+// c49RewriteWhy is c49Rewrite naming the undecided corner ("" = judged).
+func c49RewriteWhy(a c49Action, s c49State) (out c49State, silent string) {
 	out = c49State{Host: s.Host, Path: s.Path, Q: append([]c49Pair{}, s.Q...)}
-	judged = true
+	judged := true
+	defer func() {
+		if !judged && silent == "" {
+			silent = "doc-silent"
+		}
+	}()
 	switch a.Cmd {
 	case "HOST_SET":
 		out.Host = a.Params[0]
@@ -194,17 +207,31 @@ func c49Rewrite(a c49Action, s c49State) (out c49State, judged bool) {
 			return
 		}
 		if segs[1] == "" {
-			judged = false
+			silent = "host-from-path:empty-first-segment"
 			return
 		}
 		out.Host, out.Path = segs[1], "/"+segs[2]
 	case "HOST_SUFFIX_REPLACE":
 		if _, _, err := net.SplitHostPort(s.Host); err == nil {
-			judged = false // "suffix of host" with a port present: not decided by the docs
+			silent = "host-suffix:host-with-port" // "suffix of host" with a port present: not decided by the docs
 			return
 		}
-		if strings.HasSuffix(s.Host, a.Params[0]) {
-			out.Host = strings.TrimSuffix(s.Host, a.Params[0]) + a.Params[1]
+		// "Replace suffix of host": the host is the suffix's length shorter at its
+		// end and the new suffix is appended there; nothing else of it changes.
+		h, suf := s.Host, a.Params[0]
+		if strings.HasSuffix(h, suf) {
+			out.Host = h[:len(h)-len(suf)] + a.Params[1]
+			return
+		}
+		// not a suffix byte for byte. Host names compare case-insensitively and
+		// "example.com." names the same host as "example.com"; whether the action
+		// sees through either is not decided by the docs.
+		lh, ls := strings.ToLower(h), strings.ToLower(suf)
+		switch {
+		case strings.HasSuffix(lh, ls):
+			silent = "host-suffix:matches-only-case-insensitively"
+		case strings.HasSuffix(strings.TrimSuffix(lh, "."), ls), strings.HasSuffix(lh, strings.TrimSuffix(ls, ".")) && strings.HasSuffix(ls, "."):
+			silent = "host-suffix:matches-only-modulo-trailing-dot"
 		}
 	case "PATH_SET":
 		out.Path = a.Params[0]
@@ -575,12 +602,18 @@ func c49CheckRewrite(r *vkit.Run, envs *c49Envs, c *c49Case) {
 		return
 	}
 	st := c49State{Host: c.Req.Host, Path: path0, Q: c49ParseQuery(c.Req.Query)}
-	want, judged := st, true
+	want, judged, silent := st, true, ""
 	for _, a := range c.Conf.Actions {
-		var j bool
-		want, j = c49Rewrite(a, want)
-		judged = judged && j
+		var why string
+		want, why = c49RewriteWhy(a, want)
+		if why != "" && silent == "" {
+			silent = why
+		}
 	}
+	if c.Conf.Adv && silent == "" {
+		silent = c49AdvRawSilent(c)
+	}
+	judged = silent == ""
 	var wire *c49Wire
 	var werr error
 	if r.Try(func() interface{} { return c }, func() {
@@ -609,8 +642,17 @@ func c49CheckRewrite(r *vkit.Run, envs *c49Envs, c *c49Case) {
 		r.Violation(cmds+":error", werr.Error(), c49Witness(c, nil))
 		return
 	}
+	shape := ""
+	if c.Conf.Adv {
+		shape = ":" + c.Req.Shape
+		r.Count("adv_cases", 1)
+		r.Count("adv_shape["+c.Req.Shape+"]", 1)
+	}
 	if !judged {
 		r.Count("not_judged_doc_silent", 1)
+		if c.Conf.Adv {
+			r.Count("adv_not_judged["+silent+"]", 1)
+		}
 		return
 	}
 	if changes {
@@ -618,9 +660,17 @@ func c49CheckRewrite(r *vkit.Run, envs *c49Envs, c *c49Case) {
 	} else {
 		r.Count("rewrite_noop_expected", 1)
 	}
+	if c.Conf.Adv {
+		if changes {
+			r.Count("adv_judged_effective["+c.Req.Shape+"]", 1)
+		} else {
+			r.Count("adv_judged_noop", 1)
+		}
+		c49AdvSample(c, st, want, wire)
+	}
 	obs := map[string]interface{}{"wire_request_line": wire.Line, "wire_host": wire.Host, "want_host": want.Host, "want_path": want.Path, "want_query_pairs": c49PairsString(want.Q)}
 	if wire.Host != want.Host {
-		sig := cmds + ":host-mismatch"
+		sig := cmds + ":host-mismatch" + shape
 		if cmds == "HOST_SUFFIX_REPLACE" && wire.Host == st.Host {
 			sig = "HOST_SUFFIX_REPLACE:origin-form-noop"
 			if c.Req.Abs {
@@ -631,7 +681,7 @@ func c49CheckRewrite(r *vkit.Run, envs *c49Envs, c *c49Case) {
 		return
 	}
 	if wire.Path != want.Path {
-		r.Violation(cmds+":path-mismatch", fmt.Sprintf("path on the wire %q (raw %q), documented effect gives %q (request path %q)", wire.Path, wire.RawPath, want.Path, st.Path), c49Witness(c, obs))
+		r.Violation(cmds+":path-mismatch"+shape, fmt.Sprintf("path on the wire %q (raw %q), documented effect gives %q (request path %q)", wire.Path, wire.RawPath, want.Path, st.Path), c49Witness(c, obs))
 		return
 	}
 	got := c49ParseQuery(wire.Query)
@@ -981,6 +1031,29 @@ func c49Setup(r *vkit.Run) (*c49Envs, []c49Conf) {
 		return ok
 	}
 	rw = probe("rewrite", envs.rewrite, "mod_rewrite", rw, c49RewriteFile)
+	// adversarial family (c49adv.go): every configuration is first loaded alone,
+	// so that a rejected parameter set is reported by itself
+	for i, c := range c49AdvConfs(r) {
+		rej := false
+		for _, a := range c.Actions {
+			rej = rej || rejected["rewrite/"+a.Cmd]
+		}
+		if rej {
+			continue
+		}
+		one := c
+		one.Product = "probe"
+		p := filepath.Join(root, "mod_rewrite", fmt.Sprintf("probe-adv-%d.data", i))
+		data := c49RewriteFile([]c49Conf{one})
+		writeFile(p, data)
+		if err := envs.rewrite.reload("mod_rewrite", p); err != nil {
+			r.Violation(c49Cmds(&c)+":rejected-by-loader:adversarial-parameters", fmt.Sprintf("documented mod_rewrite action(s) %s with parameters %v rejected by the rule loader: %v", c49Cmds(&c), c.Actions, err),
+				map[string]interface{}{"module": "mod_rewrite", "rule_file": string(data), "error": err.Error()})
+			continue
+		}
+		r.Count("adv_confs_loaded", 1)
+		rw = append(rw, c)
+	}
 	hd = probe("header", envs.header, "mod_header", hd, c49HeaderFile)
 	rd = probe("redirect", envs.redirect, "mod_redirect", rd, c49RedirectFile)
 	// 2. all accepted configurations together
@@ -1007,7 +1080,7 @@ func c49Setup(r *vkit.Run) (*c49Envs, []c49Conf) {
 }
 
 func c49(r *vkit.Run) {
-	r.SetRule("action configurations: 31 rewrite (every command of mod_rewrite.md with 1-6 parameter sets, 2 multi-action rules), 30 header (REQ/RSP_HEADER_SET/ADD/DEL with literal values and the documented variables client_ip, cip, client_port, request_host, log_id, session_id, cluster; the doc's own example), 10 redirect (URL_SET, URL_FROM_QUERY, URL_PREFIX_ADD, SCHEME_SET x status); each its own product, loaded through the real rule loaders (each command first alone). Requests: seeded, parsed by bfe_http.ReadRequest: origin-/absolute-form, 6 hosts (one with port), paths of 0-5 segments biased to the configured prefixes incl. %20 %2F %41, empty segments, trailing slash; queries of 0-6 parts over 9 keys (incl. 'a b', prefix pairs a/ab, case pair a/A) with keys literal / first byte percent-encoded / all bytes lower-hex / '+' or %20 for space, parts k=v, k, k=, empty, =v, k=v;x=y, k=p=q; request/response header sets with repeated and mixed-case names. Observed: Host/target of bfe_http.Request.Write output, header maps, req.Redirect. Non-trivial = judged case whose documented effect changes something; distinct = whole (configuration, request). Not judged (docs silent): HOST_SUFFIX_REPLACE on host:port, HOST_SET_FROM_PATH_PREFIX with empty first segment, URL_FROM_QUERY with absent/empty/repeated key, PATH_PREFIX_ADD with prefixes not of the documented '/x/' shape (not generated), redirect response building in bfe_server")
+	r.SetRule("action configurations: 31 rewrite (every command of mod_rewrite.md with 1-6 parameter sets, 2 multi-action rules), 30 header (REQ/RSP_HEADER_SET/ADD/DEL with literal values and the documented variables client_ip, cip, client_port, request_host, log_id, session_id, cluster; the doc's own example), 10 redirect (URL_SET, URL_FROM_QUERY, URL_PREFIX_ADD, SCHEME_SET x status); each its own product, loaded through the real rule loaders (each command first alone). Requests: seeded, parsed by bfe_http.ReadRequest: origin-/absolute-form, 6 hosts (one with port), paths of 0-5 segments biased to the configured prefixes incl. %20 %2F %41, empty segments, trailing slash; queries of 0-6 parts over 9 keys (incl. 'a b', prefix pairs a/ab, case pair a/A) with keys literal / first byte percent-encoded / all bytes lower-hex / '+' or %20 for space, parts k=v, k, k=, empty, =v, k=v;x=y, k=p=q; request/response header sets with repeated and mixed-case names. Observed: Host/target of bfe_http.Request.Write output, header maps, req.Redirect. Non-trivial = judged case whose documented effect changes something; distinct = whole (configuration, request). Not judged (docs silent): HOST_SUFFIX_REPLACE on host:port, HOST_SET_FROM_PATH_PREFIX with empty first segment, URL_FROM_QUERY with absent/empty/repeated key, PATH_PREFIX_ADD with prefixes not of the documented '/x/' shape (not generated), redirect response building in bfe_server. ADVERSARIAL REWRITE FAMILY (c49adv.go; own case stream): 52 further single-action configurations over all ten mod_rewrite.md actions (12 HOST_SUFFIX_REPLACE pairs incl. patterns with a border 'aa'/'a.a', replacement containing the pattern, identity, upper-case pattern; HOST_SET incl. IPv6 literal with port, trailing dot, upper case; PATH_SET incl. '//', dot segments, sub-delims, non-ASCII; PATH_PREFIX_ADD '/a/' '/a/a/' '/'; PATH_PREFIX_TRIM '/a' '/a/' '/a/a' '/aa' '/A' '/'...; QUERY_* over the key family a/aa/aaa/A) + 12 fixed chains (one action's output is the next one's input) + 16 seeded random sequences of 2-3 actions; each first loaded alone. The request is derived from the configured parameters, shapes round-robin so that each occurs for each configuration: Host ending with the pattern once / twice / twice adjacent / three times / equal to it / only in the middle / only at the start / overlapping ('aaa' for 'aa') / absent / other case / with port / trailing dot / IPv6 literal / already ending with the new suffix; path with the prefix once / twice / three times / equal / equal+'/' / not on a segment boundary / later only / behind '//' / other case / percent-encoded inside the prefix / encoded tail (%20 %2F) / dot segments / absent / root; HOST_SET_FROM_PATH_PREFIX paths with repeated, single, empty, port, IPv6, upper-case, encoded segments; queries with the configured key at start+middle+end, once, or only as part of longer keys (aa, xa, ax, A), literal or first byte percent-encoded, value containing 'k=1&k=2' encoded. Oracle as above (Host, decoded path, parsed query of the written request == model), signatures carry the shape. Model reads 'Replace suffix of host' as: host ends byte-for-byte with parameter 1 -> exactly that final occurrence becomes parameter 2, else unchanged (string suffix, no label-boundary requirement); 'Trim prefix from original path' as: removed once at the start, leading '/' kept, no other normalisation. Not judged in this family (docs silent), counted per reason: host with port; host ending with the pattern only case-insensitively or only modulo a trailing dot; percent-encoded octet inside/right behind the trimmed prefix region or in the first segment used as host; an encoded path read by a later action of a sequence; empty first segment. Not configured (raw-or-decoded meaning undecided): values needing escaping ('%', '?', '#', space), PATH_PREFIX_ADD prefixes not of the '/x/' shape. Inconclusive if a shape never occurred or a must-change shape was never judged with an effect")
 	r.Assume("net/url QueryUnescape/PathUnescape (standard library) define the decoding of the outgoing query and path")
 	r.Assume("condition default_t() is correct")
 
@@ -1027,16 +1100,31 @@ func c49(r *vkit.Run) {
 			return
 		}
 		// the product must exist in the loaded file: map by configuration
+		found := false
 		for _, cf := range confs {
 			a, _ := json.Marshal(cf.Actions)
 			b, _ := json.Marshal(w.Case.Conf.Actions)
 			if cf.Mod == w.Case.Conf.Mod && string(a) == string(b) && cf.Status == w.Case.Conf.Status {
 				w.Case.Conf.Product, w.Case.Conf.Direct = cf.Product, cf.Direct
+				found = true
 			}
+		}
+		if !found && w.Case.Conf.Mod == "rewrite" {
+			// a seeded action sequence of another seed: run the actions directly
+			w.Case.Conf.Direct = true
 		}
 		c49Check(r, envs, w.Case)
 		r.SetMinDistinct(0)
 		return
+	}
+	// the adversarial configurations have their own generator (c49AdvRun); the
+	// original family keeps its case stream
+	all := confs
+	confs = nil
+	for _, cf := range all {
+		if !cf.Adv {
+			confs = append(confs, cf)
+		}
 	}
 	per := r.N(280, 7000)
 	total := len(confs) * per
@@ -1049,6 +1137,7 @@ func c49(r *vkit.Run) {
 			r.Sample(c)
 		}
 	})
+	c49AdvRun(r, envs, all)
 	for _, k := range []string{"rewrite_effective", "rewrite_noop_expected", "rewrite_ok", "header_effective", "header_ok", "redirect_ok", "commands_accepted"} {
 		if r.Counter(k) == 0 {
 			r.Inconclusive("outcome never reached: " + k)
